@@ -22,7 +22,8 @@ ITEMS = ["writer_chunking_enabled (ClientRequest._create_writer test)", "client_
          "HttpResponseParser close default shape", "response empty_body rule",
          "write_eof_only_after_success (_write_bytes try/except/else)",
          "continue_waiter_created / server_sends_100 (_update_expect_continue, _default_expect_handler)",
-         "client_counts_declared_length (_send writer.length, _write_bytes shortfall)"]
+         "client_counts_declared_length (_send writer.length, _write_bytes shortfall)",
+         "should_write_on_declared_length (_should_write)"]
 
 CR = "aiohttp/client_reqrep.py"
 
@@ -319,6 +320,19 @@ def generate() -> str:
     out.append("(* ClientRequestBase._send: `writer.length = content_length` before the body is written, and _write_bytes raises\n"
                "   ClientPayloadError (no write_eof) when the body source ended short of the declared Content-Length *)\n"
                f"Definition client_counts_declared_length : bool := {'true' if sets_len else 'false'}.\n")
+    sw = core.find_function(CR, "_should_write", cls="ClientRequest")
+    rets = [ast.unparse(n.value) for n in ast.walk(sw) if isinstance(n, ast.Return)]
+    old_sw = "self.body.size != 0 or self._continue is not None or protocol.writing_paused"
+    new_sw = "self.body.size != 0 or self.headers.get(hdrs.CONTENT_LENGTH, '0') != '0' or self._continue is not None or protocol.writing_paused"
+    if rets == [old_sw]:
+        on_len = False
+    elif rets == [new_sw]:
+        on_len = True
+    else:
+        raise TranslatorError(f"ClientRequest._should_write: unrecognised return {rets}")
+    out.append("(* ClientRequest._should_write: body.size != 0 [or the head carries a Content-Length other than \"0\"] (or Expect /\n"
+               "   paused transport, not modelled) *)\n"
+               f"Definition should_write_on_declared_length : bool := {'true' if on_len else 'false'}.\n")
     ok = _write_eof_placement()
     out.append("(* ClientRequest._write_bytes: writer.write_eof() runs only in the `else:` of the try around the body write,\n"
                "   i.e. not after a handled OSError / Exception of the body source *)\n"
